@@ -17,7 +17,7 @@ RULE = ("Hypothesis rule-based state machine. Seeded rules (arguments and seed d
         "arguments, seed) to the first result; every repeat of a key - immediately or after arbitrary perturbing rules - must be "
         "bit-identical, and an invariant re-executes the first remembered key after every step; two consecutive unseeded "
         "sampling calls must differ. Non-trivial = a history in which a key is repeated after at least one perturbing rule "
-        "(counted separately for seed 0). Distinct = distinct history.")
+        "(counted separately for seed 0). Distinct = distinct history. Also: every ordered pair of intervention settings per LGANM fixture (880 two-call histories), seeds as numpy integers and passed positionally (all representations of a seed share one model key), re-execution of all remembered calls after every step except directly after an unseeded API call.")
 ASSUMPTIONS = [
     "results with and without a seed are not related; only same-arguments-same-seed is compared",
     "whether different seeds give different results is not demanded",
